@@ -230,6 +230,20 @@ func (p *c17) build(seed uint64, tier string) []SendScenario {
 							out = append(out, s)
 						}
 					}
+					// ... the same with a multipart message (alternative part and attachment): its
+					// content reaches the connection through the multipart writer's own Write
+					for _, size := range []int{5000, 20000, 70000} {
+						for _, win := range []int{1024, 65536} {
+							s := base(fmt.Sprintf("stop-reading-after-354/multipart/size=%d,win=%d", size, win))
+							m := bigMsg("big", size)
+							m.Parts = append(m.Parts, PartSpec{Type: "text/html", Content: ContentSpec{Data: m.Parts[0].Content.Data}})
+							m.Attach = []FileSpec{{Name: "big.bin", Content: ContentSpec{Data: m.Parts[0].Content.Data}}}
+							s.Batches = [][]MsgSpec{{m}}
+							s.Conn = sim.ConnFaults{Window: win}
+							s.Server.Rules = []refsmtpd.Rule{{Verb: "DATA", Nth: 1, Action: refsmtpd.Action{StopReading: true}}}
+							out = append(out, s)
+						}
+					}
 					for _, off := range []int64{20, 6000, 30000} {
 						s := base(fmt.Sprintf("c2s-stall@%d", off))
 						s.Batches = [][]MsgSpec{{bigMsg("big", 60000)}}
